@@ -7,6 +7,9 @@ Case lines (manifest text, names and paths are hex encoded; '-' is the empty str
   m.fb   o0,..,on s firstBlock(offsets, start)
   m.esc  N          EscapeName / UnescapeName
   m.fix  P          fixStreamName (path.Clean) and splitPath on an arbitrary path string
+  m.clean P         path.Clean itself (every string over {'.', '/', 'a'} up to a length bound, plus random ones)
+  m.num  S          strconv.ParseUint(S,10,64) ParseInt(S,10,64) ParseInt(S,10,32) ParseInt(S,10,0) ParseUint(S,16,64)
+  m.loc  S          blockdigest.IsBlockLocator / ParseBlockLocator, manifest.ParseBlockLocator, blockdigest.FromString
   a.fs   H          Go collection filesystem loaded from the manifest  (driver "a")
   a.pdh  H          PortableDataHash + Collection.SizedDigests
   a.esc  N          manifestEscape / manifestUnescape
@@ -34,7 +37,11 @@ RULE = ("grammar-directed manifests (1-4 streams, 1-5 blocks of size 0-20 drawn 
         "larger streams (6-12 blocks of size up to 70, up to 12 file tokens); grammar-valid manifests with a file/directory conflict; streams with block sizes near 2^63 (lengths up to "
         "and beyond 2^64); a "
         "malformed stream (arbitrary bytes over a manifest-like alphabet and single-token mutations of valid "
-        "manifests incl. 2^31/2^63/2^64 boundary numbers). A case is non-trivial when its manifest is valid and "
+        "manifests incl. 2^31/2^63/2^64 boundary numbers); dedicated streams for the hand-transcribed library "
+        "semantics: path.Clean on EVERY string over {'.','/','a'} of length <= 6 (quick) / <= 8 (thorough) plus random "
+        "strings, strconv.ParseInt/ParseUint on signed/padded decimal and hex strings around 2^15/2^31/2^32/2^63/2^64/"
+        "10^19 and on malformed numerals, blockdigest locator parsing on valid, upper-case and single-character-"
+        "mutated locators. A case is non-trivial when its manifest is valid and "
         "has a multi-segment file, a zero-length block or an escaped name, or when it is malformed and rejected; "
         "distinct = distinct case line")
 ASSUMPTIONS = [
@@ -103,6 +110,8 @@ def unhex(s):
 # (" " file-segment)+ "\n"; positions refer to the logical concatenation of the stream's blocks;
 # repeated file tokens with the same combined path concatenate in order of appearance.
 
+GO_LOC_RE = re.compile(rb'^[0-9a-fA-F]{32}\+[0-9]+(\+[A-Z][A-Za-z0-9@_-]*)*\Z')       # blockdigest.LocatorPattern
+DOC_LOC_RE = re.compile(rb'^([0-9a-f]{32})\+([0-9]+)((?:\+[A-Z][-A-Za-z0-9@_]*)*)\Z')  # the format document
 LOC_RE = re.compile(rb'^([0-9a-f]{32})\+([0-9]+)(\+[A-Z][-A-Za-z0-9@_]*)*$')
 FILE_RE = re.compile(rb'^([0-9]+):([0-9]+):(.+)$', re.S)
 
@@ -494,6 +503,38 @@ def oracle(case, impl):
         if (sn, fn) != ((n[:i], n[i + 1:]) if i >= 0 else (n, b"")):
             return f"splitPath({n!r}) = {(sn, fn)!r}"
         return None
+    if op == "m.clean":
+        n = unhex(f[1])
+        if unhex(impl) != go_path_clean(n):
+            return f"path.Clean({n!r}) = {unhex(impl)!r}, its documented rules give {go_path_clean(n)!r}"
+        return None
+    if op == "m.num":
+        n = unhex(f[1])
+        g = impl.split(" ")
+        want = [ref_strconv(n, False, 64), ref_strconv(n, True, 64), ref_strconv(n, True, 32), ref_strconv(n, True, 64),
+                ref_strconv(n, False, 64, 16)]
+        names = ["ParseUint(10,64)", "ParseInt(10,64)", "ParseInt(10,32)", "ParseInt(10,0)", "ParseUint(16,64)"]
+        for nm, w, got in zip(names, want, g):
+            if got != ("e" if w is None else str(w)):
+                return f"strconv.{nm} of {n!r} gives {got}, the documented syntax/range gives {w}"
+        return None
+    if op == "m.loc":
+        n = unhex(f[1])
+        isl, p1, p2, fs = impl.split(" ")
+        if p1 != p2:
+            return "blockdigest.ParseBlockLocator and manifest.ParseBlockLocator disagree"
+        m = DOC_LOC_RE.match(n)
+        if m and int(m.group(2)) < 2**63:
+            hints = m.group(3).decode().split("+")[1:]
+            exp = f"{m.group(1).decode()}:{int(m.group(2))}:{','.join(hints) or '-'}"
+            if isl != "1" or p1 != exp:
+                return f"locator {n!r} of the grammar parsed as {isl} {p1}, the grammar reads {exp}"
+        if not GO_LOC_RE.match(n) and (isl != "0" or p1 != "err"):
+            return f"string {n!r} outside the locator pattern accepted as a locator"
+        exp_fs = n.decode("latin-1").lower() if len(n) == 32 and all(c in b"0123456789abcdefABCDEF" for c in n) else "err"
+        if fs != exp_fs:
+            return f"blockdigest.FromString({n!r}).String() = {fs}, expected {exp_fs}"
+        return None
     if op == "p.esc":
         n = unhex(f[1])
         e = unhex(impl)
@@ -525,6 +566,23 @@ def oracle(case, impl):
             return "locators_and_ranges differs from the format's semantics"
         return None
     return None
+
+
+def ref_strconv(s, signed, bits, base=10):
+    """strconv.ParseInt / ParseUint from their documentation: optional sign (ParseInt only), then one or more digits
+    of the base, nothing else (underscores and base prefixes only with base 0); out of range is an error"""
+    digits = b"0123456789" if base == 10 else b"0123456789abcdefABCDEF"
+    neg = False
+    if signed and s[:1] in (b"+", b"-"):
+        neg = s[:1] == b"-"
+        s = s[1:]
+    if not s or any(c not in digits for c in s):
+        return None
+    v = int(s.decode(), base)
+    if signed:
+        v = -v if neg else v
+        return v if -(1 << (bits - 1)) <= v < (1 << (bits - 1)) else None
+    return v if v < (1 << bits) else None
 
 
 def ref_parse_lenient_names(txt):
@@ -883,6 +941,78 @@ def gen_garbage(rng):
     return out
 
 
+def gen_num_strings(rng, nrandom):
+    """numerals for strconv: every boundary of the integer types the codecs use, signed / zero-padded, and malformed"""
+    out = []
+    for base in (2**15, 2**31, 2**32, 2**63, 2**64, 10**19, 10**20):
+        for d in (-2, -1, 0, 1, 2):
+            for sign in (b"", b"+", b"-"):
+                for pad in (b"", b"00"):
+                    out.append(sign + pad + str(base + d).encode())
+    out += [b"", b"+", b"-", b"0", b"-0", b"+0", b"00", b"1_0", b"0x10", b"0X10", b"0b1", b"0o7", b" 1", b"1 ", b"1\n",
+            b"+-1", b"--1", b"++1", b"1e3", b"1.0", b"\xef\xbc\x91", b"\xd9\xa1", b"1\x00", b"Inf", b"nan", b"9" * 40,
+            b"0" * 40 + b"7", b"f" * 16, b"f" * 17, b"F" * 16, b"1" + b"0" * 16, b"0" * 20 + b"f" * 16, b"g", b"fg", b"0xff",
+            b"ff_ff", b"-ff", b"+ff", b"aBcDeF", b"7fffffffffffffff", b"8000000000000000", b"ffffffffffffffff"]
+    for _ in range(nrandom):
+        r = rng.random()
+        if r < 0.4:
+            n = rng.choice([b"", b"", b"+", b"-"]) + bytes(rng.choice(b"0123456789") for _ in range(rng.randint(1, 25)))
+        elif r < 0.7:
+            n = bytes(rng.choice(b"0123456789abcdefABCDEF") for _ in range(rng.randint(1, 18)))
+        else:
+            n = bytearray(str(rng.choice(BIGNUMS) + rng.randint(-3, 3)).encode())
+            n.insert(rng.randrange(len(n) + 1), rng.choice(b"+-_ xX.eE\t\x00\xff:/"))
+            n = bytes(n)
+        out.append(n)
+    return out
+
+
+def gen_clean_strings(rng, maxlen, nrandom):
+    """every string over {'.', '/', 'a'} up to maxlen (dot, dotdot, multiple slashes, rooted, trailing slash in every
+    combination), plus random longer strings over a wider alphabet"""
+    out, layer = [b""], [b""]
+    for _ in range(maxlen):
+        layer = [p + c for p in layer for c in (b".", b"/", b"a")]
+        out += layer
+    for _ in range(nrandom):
+        out.append(b"".join(rng.choice([b".", b"..", b"/", b"/", b"//", b"a", b"b c", b"\\", b"...", b"x.", b".x",
+                                        b"\x00", bytes([rng.randrange(256)])]) for _ in range(rng.randint(3, 14))))
+    return out
+
+
+def gen_loc_strings(rng, n):
+    """locators for blockdigest: valid (with hints, sizes up to and beyond 2^63), upper/mixed-case digests, single
+    mutations (length of the digest, non-hex character, missing/empty/signed size, malformed hints), bare digests"""
+    out = []
+    for _ in range(n):
+        h = gen_hash(rng)
+        size = rng.choice([0, 1, 3, 20, 67108864, 2**31 - 1, 2**31, 2**63 - 1, 2**63, 2**64, rng.randint(0, 10**6)])
+        loc = h + "+" + (rng.choice(["", "00"]) if rng.random() < 0.1 else "") + str(size)
+        for _ in range(rng.choice([0, 0, 1, 2, 3])):
+            loc += gen_hint(rng)
+        b = loc.encode()
+        r = rng.random()
+        if r < 0.3:
+            pass
+        elif r < 0.45:
+            b = (h.upper() if rng.random() < 0.5 else "".join(c.upper() if rng.random() < 0.5 else c for c in h)).encode() \
+                + b[32:]
+        elif r < 0.55:
+            b = (h if rng.random() < 0.5 else h.upper()).encode()      # bare digest: FromString's domain
+            if rng.random() < 0.5:
+                k = rng.randrange(32)
+                b = rng.choice([b[:k] + b[k + 1:], b[:k] + b"0" + b[k:], b[:k] + rng.choice([b"g", b"G", b"+", b" ", b"x"]) + b[k + 1:]])
+        else:
+            k = rng.randrange(len(b) + 1)
+            b = rng.choice([
+                b[:k] + b[k + 1:], b[:k] + bytes([rng.choice(b"gG+ :-_@.*zZ09\n\x00\xff")]) + b[k:],
+                b[:32] + b[33:], b[:33], b[:33] + b"+Z", b[:33] + b"-3", b[:33] + b"+3", b + b"+", b + b"+a", b + b"+1x",
+                b + b"+A.b", b + b"+Zq*", b + b"\n", b" " + b, b + b" ", b[:31] + b"+" + b[32:], b"0" + b, b[1:],
+                b + b"+Abc-DEF_0@z"])
+        out.append(b)
+    return out
+
+
 def ext_pairs(rng, ref, tier):
     files = list(ref["files"])
     dirs = sorted({p.rsplit(b"/", 1)[0] for p in files} | dirs_of(files) | {b"."})
@@ -980,6 +1110,12 @@ def generate(rng, tier):
         n = b"".join(rng.choice([b".", b"..", b"/", b"/", b"a", b"b c", b"\\", b"./", b"//", b"x.", b".x", b"",
                                  bytes([rng.randrange(256)])]) for _ in range(rng.randint(0, 9)))
         out.append(f"m.fix {hx(n)}")
+    for n in gen_clean_strings(rng, 6 if quick else 8, 200 if quick else 4000):
+        out.append(f"m.clean {hx(n)}")
+    for n in gen_num_strings(rng, 150 if quick else 6000):
+        out.append(f"m.num {hx(n)}")
+    for n in gen_loc_strings(rng, 300 if quick else 6000):
+        out.append(f"m.loc {hx(n)}")
     for _ in range(nesc):
         r = rng.random()
         if r < 0.4:
